@@ -56,7 +56,7 @@ func cmdSelftest(args []string) int {
 			wg.Add(1)
 			go func(ji int, j job) {
 				defer wg.Done()
-				cmd := exec.Command(exe, "worker", "-prop", sc.Prop, "-tier", *tier, "-seed", fmt.Sprint(*seed), "-w", "0", "-n", "1", "-count", fmt.Sprint(*runs))
+				cmd := exec.Command(exe, "worker", "-prop", sc.Prop, "-tier", *tier, "-seed", fmt.Sprint(*seed), "-w", "0", "-n", "1", "-count", fmt.Sprint(*runs), "-rpp", "0")
 				env := workerEnv()
 				env = append(env, "GOMAXPROCS="+j.gm)
 				cmd.Env = env
